@@ -267,7 +267,7 @@ var faultKinds = []string{
 	"emit-names-macro", "emit-names-mode", "emit-names-rule", "push-names-token", "push-names-macro", "lexer-term-names-token", "lexer-term-names-mode", "parser-term-names-macro", "parser-term-names-mode",
 	"ambiguous-alias", "macro-cycle-1", "macro-cycle-2", "macro-cycle-3", "macro-cycle-unused",
 	"no-start", "two-start",
-	"discard-on-token", "emit-on-token", "two-discard", "two-emit", "discard-and-emit",
+	"discard-on-token", "emit-on-token", "two-discard", "two-discard-apart", "two-emit", "discard-and-emit",
 	"empty-literal-lexer", "empty-literal-macro", "empty-literal-parser", "reversed-range", "reversed-range-in-macro",
 }
 
@@ -451,9 +451,21 @@ func inject(rt *rapid.T, b *base, kind string) bool {
 	case "two-discard":
 		addLex("frag", "", "@frag '~d~' @discard @discard")
 	case "two-emit":
-		addLex("frag", "", "@frag '~d~' @emit("+tok+") @emit("+tok+")")
+		// the same token twice, or two different tokens; mode actions may stand between and around them
+		tok2 := b.toks[ri(rt, 0, len(b.toks)-1, "tok2")]
+		mid := []string{" ", " ", " @push_mode() "}[ri(rt, 0, 2, "mid")]
+		addLex("frag", "", "@frag '~d~' @emit("+tok+")"+mid+"@emit("+tok2+")")
 	case "discard-and-emit":
-		addLex("frag", "", "@frag '~d~' @emit("+tok+") @discard")
+		switch ri(rt, 0, 2, "order") {
+		case 0:
+			addLex("frag", "", "@frag '~d~' @emit("+tok+") @discard")
+		case 1:
+			addLex("frag", "", "@frag '~d~' @discard @emit("+tok+")")
+		default:
+			addLex("frag", "", "@frag '~d~' @discard @push_mode() @emit("+tok+")")
+		}
+	case "two-discard-apart":
+		addLex("frag", "", "@frag '~d~' @discard @push_mode() @discard")
 	case "empty-literal-lexer":
 		addLex("token", "EL", "EL = '~e~' ''")
 	case "empty-literal-macro":
